@@ -57,6 +57,76 @@ pub broadcast proof fn lemma_sem_range(t: Tree, env: Env)
 }
 pub broadcast group leaf_lemmas { lemma_sem_mk, lemma_wf_mk, lemma_below_mk, lemma_sem_range }
 
+// ---------- canonicity (C01) for ternary diagrams ----------
+pub open spec fn upd(env: Env, l: int, v: int) -> Env { |i: int| if i == l { v } else { env(i) } }
+pub open spec fn agree_from(e1: Env, e2: Env, m: int) -> bool { forall|i: int| i >= m ==> #[trigger] e1(i) == e2(i) }
+pub proof fn lemma_sem_agree(t: Tree, e1: Env, e2: Env)
+    requires wf(t), agree_from(e1, e2, top(t)),
+    ensures sem3(t, e1) == sem3(t, e2),
+    decreases t,
+{
+    match t {
+        Tree::Leaf(_) => {}
+        Tree::Inner(l, a, b, c) => { lemma_sem_agree(*a, e1, e2); lemma_sem_agree(*b, e1, e2); lemma_sem_agree(*c, e1, e2); }
+    }
+}
+pub proof fn lemma_sem_upd(t: Tree, env: Env, l: int, v: int)
+    requires wf(t), l < top(t),
+    ensures sem3(t, upd(env, l, v)) == sem3(t, env),
+{
+    lemma_sem_agree(t, upd(env, l, v), env);
+}
+/// cofactor of `t` w.r.t. level `l` taking value `v` (2 = true, 1 = unknown, 0 = false) when `l <= top(t)`
+pub open spec fn cof(t: Tree, l: int, v: int) -> Tree {
+    match t { Tree::Inner(k, a, b, c) => if k as int == l { if v == 2 { *a } else if v == 1 { *b } else { *c } } else { t }, _ => t }
+}
+//@lemma name=distinguish props=C01
+pub proof fn distinguish(a: Tree, b: Tree) -> (env: Env)
+    requires wf(a), wf(b), a != b,
+    ensures sem3(a, env) != sem3(b, env), forall|i: int| 0 <= #[trigger] env(i) <= 2,
+    decreases a, b,
+{
+    if a is Leaf && b is Leaf {
+        |i: int| 0int
+    } else {
+        let l = if top(a) <= top(b) { top(a) } else { top(b) };
+        // some value v in {2,1,0} separates the cofactors (otherwise both nodes would be equal or reducible)
+        let v: int = if cof(a, l, 2) != cof(b, l, 2) { 2 } else if cof(a, l, 1) != cof(b, l, 1) { 1 } else { 0 };
+        assert(cof(a, l, v) != cof(b, l, v));
+        let e = distinguish(cof(a, l, v), cof(b, l, v));
+        lemma_sem_upd(cof(a, l, v), e, l, v); lemma_sem_upd(cof(b, l, v), e, l, v);
+        let r = upd(e, l, v);
+        assert(sem3(a, r) == sem3(cof(a, l, v), r));
+        assert(sem3(b, r) == sem3(cof(b, l, v), r));
+        r
+    }
+}
+//@lemma name=canonicity props=C01,C03
+pub proof fn canonicity(a: Tree, b: Tree)
+    requires wf(a), wf(b), forall|env: Env| (forall|i: int| 0 <= #[trigger] env(i) <= 2) ==> sem3(a, env) == sem3(b, env),
+    ensures a == b,
+{
+    if a != b { let e = distinguish(a, b); assert(sem3(a, e) == sem3(b, e)); }
+}
+//@lemma name=handles_equal_iff_same_function props=C01
+pub proof fn handles_equal_iff_same_function<E: Edge>(x: E, y: E)
+    requires edge_ok::<E>(), wf(x.view()), wf(y.view()),
+    ensures x.eq_spec(&y) <==> (forall|env: Env| (forall|i: int| 0 <= #[trigger] env(i) <= 2) ==> sem3(x.view(), env) == sem3(y.view(), env)),
+{
+    if forall|env: Env| (forall|i: int| 0 <= #[trigger] env(i) <= 2) ==> sem3(x.view(), env) == sem3(y.view(), env) { canonicity(x.view(), y.view()); }
+}
+//@lemma name=add_vars_preserves_function props=C01,C16
+pub proof fn add_vars_preserves_function(t: Tree, n: int, e1: Env, e2: Env)
+    requires below(t, n), forall|i: int| i < n ==> #[trigger] e1(i) == e2(i),
+    ensures sem3(t, e1) == sem3(t, e2),
+    decreases t,
+{
+    match t {
+        Tree::Leaf(_) => {}
+        Tree::Inner(l, a, b, c) => { add_vars_preserves_function(*a, n, e1, e2); add_vars_preserves_function(*b, n, e1, e2); add_vars_preserves_function(*c, n, e1, e2); }
+    }
+}
+
 // ---------- the fixed three-valued truth tables (from the property statement) ----------
 pub open spec fn t_not(a: int) -> int { 2 - a }
 pub open spec fn t_and(a: int, b: int) -> int { if a <= b { a } else { b } }      // Kleene strong: minimum
